@@ -1,7 +1,7 @@
 (* C10 Variadic collections behave as sets and multisets of tuples.
    Only the property theorems; each is closed by an exact/apply of a lemma proved in
    Coll/PVC.v and followed by Print Assumptions.  Model: Coll/ModelVC.v. *)
-From HV Require Import Coll.ModelVC Coll.PVC.
+From HV Require Import Coll.ModelVC Coll.PVC Coll.ModelVar Coll.PVar.
 From Coq Require Import Permutation.
 
 (* Every answer (insert's flag, get, contains, len, is_empty, iter, into_iter, drain, ==) of every
@@ -50,6 +50,27 @@ Theorem C10_holds_b_sound :
   forall k ops impl, C10_holds_b k ops impl = true <-> Forall2 ans_equiv impl (spec_run k ops).
 Proof. exact holds_b_spec. Qed.
 Print Assumptions C10_holds_b_sound.
+
+(* variadics/src/lib.rs: the tuple-list operations the collections and GHTs rely on (extend,
+   reverse, LEN, Split at every prefix length, SplitBySuffix at every suffix length,
+   HomogenousVariadic get / into_iter, into_option, PartialEqVariadic), transcribed with the
+   recursion structure of the Rust impls, ARE the plain list functions (app, rev, length,
+   firstn/skipn, nth_error, map Some, equality).  The VecVariadic part (zip_vecs / push: see
+   zip_push in PVC; get / drain) is correspondence-checked only. *)
+Theorem C10_variadic_tuple_ops :
+  forall r r2 rows idx lo hi,
+    let m := model_vobs r r2 rows idx lo hi in
+    let s := spec_vobs r r2 rows idx lo hi in
+    o_reverse m = o_reverse s /\ o_extend m = o_extend s /\ o_len m = o_len s /\
+    o_splits m = o_splits s /\ o_suffix_splits m = o_suffix_splits s /\ o_hget m = o_hget s /\
+    o_into_iter m = o_into_iter s /\ o_into_option m = o_into_option s /\ o_eq m = o_eq s.
+Proof. exact variadic_tuple_ops. Qed.
+Print Assumptions C10_variadic_tuple_ops.
+
+Theorem C10_split_by_suffix_roundtrip :
+  forall m l p s, vsplit_by_suffix m l = Some (p, s) -> vextend p s = l /\ length s = m.
+Proof. exact vsplit_by_suffix_roundtrip. Qed.
+Print Assumptions C10_split_by_suffix_roundtrip.
 
 (* FORMER FINDING (fixed in /repo by 38aff06f64c): VariadicCountedHashSet::extend onto a non-empty
    table lost the old rows.  Former theorem C10_counted_extend_trace_refuted: the recorded answers
